@@ -93,6 +93,57 @@ def _single_assign_env(fn, only=None):
     return {k: v for k, v in val.items() if cnt.get(k) == 1 and (only is None or k in only)}
 
 
+def normalising_rule(ctx, rule, want_file, floor):
+    """Every Exp_SO3_quat / Exp_SO3_quat_P / T_SO3_quat / T_SO3_quat_P call on a state quaternion is the normalising variant
+    (the result is a rotation for ANY nonzero quaternion); the kinematic-equation family is the non-normalising, linear one."""
+    rep = ctx.rep
+    rot = ctx.repo.module(ROT)
+    defaults = {}
+    for n in rot.tree.body:
+        if isinstance(n, ast.FunctionDef) and n.name in NORMALISING + KINEQ:
+            a = n.args
+            for arg, d in zip(reversed(a.args), reversed(a.defaults)):
+                if arg.arg == "normalize" and isinstance(d, ast.Constant):
+                    defaults[n.name] = d.value
+    if len(defaults) < 6:
+        raise AnalysisError("normalize defaults of the quaternion kernels not found in math/rotations.py")
+    nsite = 0
+    for rel, mod in ctx.repo.modules.items():
+        if not want_file(rel):
+            continue
+        for qn, fn in mod.defs().items():
+            if not isinstance(fn, ast.FunctionDef):
+                continue
+            for n in walk_no_nested(fn):
+                if isinstance(n, ast.Call) and isinstance(n.func, ast.Name) and n.func.id in NORMALISING + KINEQ:
+                    nsite += 1
+                    kw = {k.arg: k.value for k in n.keywords}
+                    if "normalize" in kw:
+                        v = kw["normalize"]
+                        flag = v.value if isinstance(v, ast.Constant) else None
+                    elif len(n.args) > 1 and isinstance(n.args[1], ast.Constant):
+                        flag = n.args[1].value
+                    else:
+                        flag = defaults[n.func.id]
+                    C = f"{rel}:{qn}"
+                    if flag is None:
+                        rep.note(f"{rule}: normalize flag not constant at {C}: {norm_src(n)}")
+                        continue
+                    if n.func.id in NORMALISING:
+                        if flag is True:
+                            rep.ok(rule, C, f"{norm_src(n)[:70]} (normalising)")
+                        else:
+                            rep.bad(rule, C, n, f"`{n.func.id}` is evaluated without normalisation on a nodal/interpolated quaternion: the result is a rotation only "
+                                    f"for unit quaternions", f"{rel}:{n.lineno}")
+                    else:
+                        if flag is False:
+                            rep.ok(rule, C, f"{norm_src(n)[:70]} (kinematic equation, linear in p)")
+                        else:
+                            rep.bad(rule, C, n, f"the kinematic equation family must use the non-normalising `{n.func.id}` consistently", f"{rel}:{n.lineno}")
+    if nsite < floor:
+        raise AnalysisError(f"only {nsite} quaternion-kernel call sites found")
+
+
 def run(ctx):
     rep = ctx.rep
     rep.rule("C11.R1", "chain-rule coverage of rod derivatives (K5) and material tangents", 20)
@@ -182,51 +233,7 @@ def run(ctx):
                 else:
                     rep.bad("C11.R2", C, f"updates of {name}", f"`{name}` is accumulated differently in _deval ({s2i}) than in _eval ({s1i})", f"{CR}:{dv.lineno}")
     # ---- R3
-    rot = ctx.repo.module(ROT)
-    defaults = {}
-    for n in rot.tree.body:
-        if isinstance(n, ast.FunctionDef) and n.name in NORMALISING + KINEQ:
-            a = n.args
-            for arg, d in zip(reversed(a.args), reversed(a.defaults)):
-                if arg.arg == "normalize" and isinstance(d, ast.Constant):
-                    defaults[n.name] = d.value
-    if len(defaults) < 6:
-        raise AnalysisError("normalize defaults of the quaternion kernels not found in math/rotations.py")
-    nsite = 0
-    for rel, mod in ctx.repo.modules.items():
-        if not (rel.startswith("cardillo/rods/") or rel == "cardillo/discrete/rigid_body.py"):
-            continue
-        for qn, fn in mod.defs().items():
-            if not isinstance(fn, ast.FunctionDef):
-                continue
-            for n in walk_no_nested(fn):
-                if isinstance(n, ast.Call) and isinstance(n.func, ast.Name) and n.func.id in NORMALISING + KINEQ:
-                    nsite += 1
-                    kw = {k.arg: k.value for k in n.keywords}
-                    if "normalize" in kw:
-                        v = kw["normalize"]
-                        flag = v.value if isinstance(v, ast.Constant) else None
-                    elif len(n.args) > 1 and isinstance(n.args[1], ast.Constant):
-                        flag = n.args[1].value
-                    else:
-                        flag = defaults[n.func.id]
-                    C = f"{rel}:{qn}"
-                    if flag is None:
-                        rep.note(f"C11.R3: normalize flag not constant at {C}: {norm_src(n)}")
-                        continue
-                    if n.func.id in NORMALISING:
-                        if flag is True:
-                            rep.ok("C11.R3", C, f"{norm_src(n)[:70]} (normalising)")
-                        else:
-                            rep.bad("C11.R3", C, n, f"`{n.func.id}` is evaluated without normalisation on a nodal/interpolated quaternion: the result is a rotation only "
-                                    f"for unit quaternions", f"{rel}:{n.lineno}")
-                    else:
-                        if flag is False:
-                            rep.ok("C11.R3", C, f"{norm_src(n)[:70]} (kinematic equation, linear in p)")
-                        else:
-                            rep.bad("C11.R3", C, n, f"the kinematic equation family must use the non-normalising `{n.func.id}` consistently", f"{rel}:{n.lineno}")
-    if nsite < 20:
-        raise AnalysisError(f"only {nsite} quaternion-kernel call sites found")
+    normalising_rule(ctx, "C11.R3", lambda rel: rel.startswith("cardillo/rods/") or rel == "cardillo/discrete/rigid_body.py", 20)
     # ---- R4
     pg = model.cls("CosseratRod_PetrovGalerkin")
     qd, qdu = pg.methods.get("q_dot"), pg.methods.get("q_dot_u")
